@@ -76,6 +76,9 @@ pub struct StepFault {
   pub check_err_res: Vec<usize>,
   pub read_err_at: Option<u64>,
   pub write_err_at: Option<u64>,
+  /// All injected checker errors of the session carry the same text.
+  #[serde(default)]
+  pub same_err_text: bool,
 }
 
 impl StepFault {
@@ -398,6 +401,7 @@ pub fn gen_history(rng: &mut Rng, prog: &Program, cfg: &GenCfg) -> (Vec<(usize, 
       } else {
         f.check_err_res.push(rng.below(nres as u64) as usize);
       }
+      f.same_err_text = rng.chance(40);
     }
     if cfg.rw_errors && rng.chance(25) {
       if rng.chance(50) { f.read_err_at = Some(rng.range(1, 8)); } else { f.write_err_at = Some(rng.range(1, 4)); }
